@@ -54,6 +54,9 @@ def cell_patterns(h, w, rng):
 def conn_jobs(chk, tier, seed, rng):
     """C04: active_vertices_connected on objects with more than 256 vertices"""
     shapes = [(1, 300), (17, 17)] if tier == "quick" else [(1, 300), (300, 1), (17, 17), (16, 17), (2, 150)]
+    # small companions of the same shapes (single row, single column, rectangle): on records of at most 100 cells
+    # Trace_Patterns!GridAgree checks the fast grid notions against the GraphDefs definitions
+    shapes = [(1, 7), (7, 1), (3, 5), (5, 3)] + shapes
     recs = []
     for (h, w) in shapes:
         for p in cell_patterns(h, w, rng):
